@@ -28,6 +28,7 @@ type TierCfg struct {
 	FeasMs       int            `json:"feas_ms"`
 	AssertMs     int            `json:"assert_ms"`
 	AbstractURem bool           `json:"abstract_urem"`
+	NoLift       bool           `json:"no_lift"` // keep Int comparisons in the Int theory (no BV lifting)
 }
 
 type HarnessCfg struct {
